@@ -140,12 +140,20 @@ def marker_in_text(kind, v, sql):
 
 
 # --- backends: run and return (sql, params) of the filter-carrying statement --------------------
-def run_django(model_name, text):
+def run_django(model_name, text, how="instances"):
     from odata_query.django import apply_odata_query
     M = django_env.models()
     model = getattr(M, model_name)
     with django_env.driver_trace() as log:
-        list(apply_odata_query(model.objects.all(), text).values_list("id", flat=True))
+        qs = apply_odata_query(model.objects.all(), text)
+        # how the caller consumes the queryset decides which parts of it reach the statement
+        # (annotations are dropped from a values_list / count, kept for model instances)
+        if how == "instances":
+            list(qs)
+        elif how == "count":
+            qs.count()
+        else:
+            list(qs.values_list("id", flat=True))
         stmts = [(s, p) for s, p in log if s.lstrip().upper().startswith("SELECT")]
     return stmts[-1] if stmts else None
 
@@ -169,6 +177,8 @@ def run_sqla(style, model_name, text):
 
 BACKENDS = {
     "django": lambda m, t: run_django(m, t),
+    "django-values": lambda m, t: run_django(m, t, "values"),
+    "django-count": lambda m, t: run_django(m, t, "count"),
     "sqla-orm-select": lambda m, t: run_sqla("orm-select", m, t),
     "sqla-orm-query": lambda m, t: run_sqla("orm-query", m, t),
     "sqla-core": lambda m, t: run_sqla("core", m, t),
@@ -267,7 +277,7 @@ def run(ctx):
             entity = "post" if rng.random() < 0.7 else "author"
             t = R.gen_filter(rng, entity, rng.randint(0, 2))
             model = entity.capitalize()
-            backends = ["django", "sqla-orm-select", "sqla-orm-query"]
+            backends = ["django", "django-values", "sqla-orm-select", "sqla-orm-query"]
             cls = "relational"
         else:
             t = scalar.gen_bool(rng, p, rng.randint(1, 4))
